@@ -82,6 +82,10 @@ CLAIMED = {
          'Atomic item types and item(): for all inputs. PARTIAL: node kind tests, map / array / function tests and schema types are outside the Coq model (hand-written expectation table); function results vs declared return types are checked for ~170 calls with the implementation matcher. Seven defects were fixed in /repo; two known findings.',
          'Trusted: Coq kernel; Gen/C18Types.v T-data; transcription of the XSD derivation table; harness table of constructor literals. No axioms.',
          'DESIGN.md §6 C18'),
+ 'C20': ('Coq proof that the typing walk of apply_schema (instance and content models in lockstep, element matches cached per content-model identity) assigns to every element the type its parent content model declares, for every coherent schema, instance and truthful cache; cache irrelevance; erasing the types gives back the instance; refutation of a cache keyed by type name. Correspondence on generated schemas (xmlschema) with valid instances under XSD 1.0 and 1.1; typed values vs the schema processor decode; instance of element(*, T) / attribute(*, T); arithmetic; selection with and without the schema',
+         'Typing walk: for all schemas / instances of the model (sequences of named children, anonymous and named complex types, simple types). PARTIAL: typed values, attributes, defaults, lists / unions / restrictions, kind tests with type arguments and selection invariance are compared on generated cases (not proved); xsi:type, wildcards, substitution groups, assertion-based and not fully valid schemas are not modelled. One defect fixed; two known findings (root element skipped by the wildcard with a schema-bound parser - pinned by a test; defaulted attributes selected).',
+         'Trusted: Coq kernel; xmlschema 4.3.1 as the schema processor; harness schema generator and type-object mapping. No axioms.',
+         'DESIGN.md §6 C20'),
 }
 
 NOT_YET = {}
